@@ -99,6 +99,9 @@ class CFDivisor:
         graph = CFGraph.from_dict(graph_data)
         
         degrees_dict = data.get("degrees", {})
+        # A damaged file can hold a float (e.g. 1e5 or 1.5) where a chip count is expected
+        if any(not isinstance(degree, int) for degree in degrees_dict.values()):
+            raise ValueError("Degrees must be integers")
         degrees_list = list(degrees_dict.items()) # Convert dict to list of tuples for constructor
         
         return cls(graph, degrees_list)
